@@ -429,6 +429,7 @@ class Runner:
         self.events, self.launches, self.files = [], [], []
         self.nout, self.notified_at = 0, None
         self.blk, self.wake, self.task = "idle", 0, None
+        self.window_seen = False
         self.prod_dir = prod.workingDirectory.path
         for fn in os.listdir(self.prod_dir):
             os.remove(os.path.join(self.prod_dir, fn))
@@ -455,7 +456,9 @@ class Runner:
 
         def check_then_window(date):
             r = real_check(date)
-            W.yield_("window")
+            if not runner.window_seen:          # one WINDOW per EngineTaskController call (a repaired engine may look twice)
+                runner.window_seen = True
+                W.yield_("window")
             return r
         job.producersHaveOutputSinceDate = check_then_window
         finished = []
@@ -490,6 +493,7 @@ class Runner:
                             late.append(e)
                         self.do_env(e["a"], 2 * t)
                     continue
+                self.window_seen = False
                 if kind == "sleep":
                     end = t + int(info["secs"])
                     task = self.task = None
